@@ -256,6 +256,19 @@ def run_chain(e, ob, extra_info, timeout=60):
             R[mono] = lifted
         Rp = IntPoly(R)
         records.append(("E", f"{name}@{row}", "ground", 0))
+        # well-formed output vectors of the group (coefficients -base^i): zero has a unique representation
+        zvec = {}
+        for mono, c in R.items():
+            if len(mono) == 1 and c < 0:
+                ex_ = 0
+                v_ = 1
+                while v_ < -c:
+                    v_ *= base
+                    ex_ += 1
+                if v_ == -c and ex_ < n:
+                    zvec[ex_] = mono[0]
+        if len(zvec) == n and all(e.bound(zvec[i]) <= base for i in range(n)):
+            e.zero_rep_lemma([zvec[i] for i in range(n)])
         e.lines.append(f"(assert (= {e_smt} 0))")
         blk = find_block(R, base)
         if blk is None:
